@@ -1131,16 +1131,16 @@ theorem reach_inv_from {fb : Bool} {q0 q : State} (h0 : Inv fb q0) (hr : Reach f
   | init => exact h0
   | step _ hc hs ih => exact inv_step ih hc hs
 
-theorem reach_inv {fb : Bool} {pre : List (Nat × Nat)} {rc : Nat → List Rcpt} {nn : Nat → Bool}
+theorem reach_inv {fb : Bool} {pre : List (Nat × Nat)} {rc : Nat → List Rcpt} {nn : Nat → Bool} {att : Nat → Nat}
     (hpre : (pre.map (·.1)).Nodup) (hrc : ∀ id ∈ pre.map (·.1), (rc id).Nodup) {q : State}
-    (hr : Reach fb (start pre rc nn) q) : Inv fb q := by
+    (hr : Reach fb (startAt pre rc nn att) q) : Inv fb q := by
   induction hr with
-  | init => exact inv_start fb pre rc nn hpre hrc
+  | init => exact inv_startAt fb pre rc nn att hpre hrc
   | step _ hc hs ih => exact inv_step ih hc hs
 
 /-- The scheduler part of a run of the composed machine is a (calm) run of the scheduler model. -/
-theorem reach_sched {fb : Bool} {pre : List (Nat × Nat)} {rc : Nat → List Rcpt} {nn : Nat → Bool} {q : State}
-    (hr : Reach fb (start pre rc nn) q) : C12.Reach (C12.start pre) q.s := by
+theorem reach_sched {fb : Bool} {pre : List (Nat × Nat)} {rc : Nat → List Rcpt} {nn : Nat → Bool} {att : Nat → Nat} {q : State}
+    (hr : Reach fb (startAt pre rc nn att) q) : C12.Reach (C12.start pre) q.s := by
   induction hr with
   | init => exact C12.Reach.init
   | step _ hc hs ih => exact C12.Reach.step ih (calm_sched hc) (step_sched hs)
